@@ -216,4 +216,16 @@ def requests(rng, ddp, base_programs, quick):
         out.append(("deep-blocks", {"files": {"main.ddp": HEAD + "".join("\t" * i + "Wenn wahr, dann:\n" for i in range(min(depth, 400))) + "\t" * min(depth, 400) + "Schreibe 1.\n"}, "main": "main.ddp"}))
         out.append(("deep-list-type", {"files": {"main.ddp": HEAD + "Die Zahlen Liste" + " Liste" * min(depth, 50) + " l ist eine leere Zahlen Liste.\n"}, "main": "main.ddp"}))
         out.append(("long-chain", {"files": {"main.ddp": HEAD + "Die Zahl z ist 1" + " plus 1" * depth + ".\n"}, "main": "main.ddp"}))
+    # alias calls nested in each other's arguments, well-formed and with one fault in the innermost argument (a fault that is
+    # found while the argument is parsed, a type error, a missing parenthesis): the work must stay linear in the depth, with one
+    # function behind the alias and with two functions sharing its text
+    FN1 = ('Die Funktion doppel mit dem Parameter n vom Typ Zahl, gibt eine Zahl zurück, macht:\n\tGib n mal 2 zurück.\nUnd kann so benutzt werden:\n\t"das Doppelte von <n>"\n\n')
+    FN2 = ('Die Funktion doppelT mit dem Parameter n vom Typ Text, gibt einen Text zurück, macht:\n\tGib n verkettet mit n zurück.\nUnd kann so benutzt werden:\n\t"das Doppelte von <n>"\n\n')
+    for depth in ([12, 24] if quick else [8, 12, 16, 24, 40, 80]):
+        for fl, fns in (("one-function", FN1), ("two-functions", FN1 + FN2)):
+            for il, inner in (("well-formed", "(1 plus 2)"), ("fault-in-argument", "(1 plus)"), ("type-error", "(wahr plus 2)"), ("open-parenthesis", "(1 plus 2")):
+                e = inner
+                for _ in range(depth):
+                    e = "(das Doppelte von %s)" % e
+                out.append(("nested-alias-calls:%s:%s:%d" % (fl, il, depth), {"files": {"main.ddp": HEAD + fns + "Die Zahl z ist %s.\n" % e}, "main": "main.ddp"}))
     return out
